@@ -79,6 +79,31 @@ def output (m : Mesh1 Float Float) (prec : Nat) : String :=
     let line := (List.range m.nvars).foldl (fun l v => l ++ fixed (vars[v]?.getD 0.0) prec ++ " ") (fixed node prec ++ " ")
     acc ++ line ++ "\n") ""
 
+/-- the text `Mesh2D::output(filename, precision)` writes: for each y-node (outer) and x-node
+    (inner) one line `x y v_0 … v_{nvars-1}`, a blank line after each y-node -/
+def output2 (m : Mesh2 Float Float) (prec : Nat) : Res String :=
+  Mat.forM' 0 m.ny "" (fun acc j => do
+    let acc ← Mat.forM' 0 m.nx acc (fun acc i => do
+      let x ← aget m.xnodes i
+      let y ← aget m.ynodes j
+      let row ← aget m.vars (i * m.ny + j)
+      let line ← Mat.forM' 0 m.nvars (fixed x prec ++ " " ++ fixed y prec ++ " ") (fun l v => do
+        let z ← aget row v
+        pure (l ++ fixed z prec ++ " "))
+      pure (acc ++ line ++ "\n"))
+    pure (acc ++ "\n"))
+
+/-- `Mesh2D::output_var(filename, var, precision)`: one variable per line -/
+def outputVar2 (m : Mesh2 Float Float) (var prec : Nat) : Res String :=
+  Mat.forM' 0 m.ny "" (fun acc j => do
+    let acc ← Mat.forM' 0 m.nx acc (fun acc i => do
+      let x ← aget m.xnodes i
+      let y ← aget m.ynodes j
+      let row ← aget m.vars (i * m.ny + j)
+      let z ← aget row var
+      pure (acc ++ fixed x prec ++ " " ++ fixed y prec ++ " " ++ fixed z prec ++ " " ++ "\n"))
+    pure (acc ++ "\n"))
+
 /-- `Mesh1D::read(filename)` on a mesh with `nvars` variables -/
 def read (m : Mesh1 Float Float) (text : String) : Mesh1 Float Float :=
   let toks := (text.split (fun c => c == ' ' || c == '\n' || c == '\t')).toList.map (·.toString) |>.filter (· ≠ "")
